@@ -92,6 +92,45 @@ def validRuns (s : String) : Option Nat :=
   | some l => some l.length
   | none => none
 
+/-! ### `rest`: restore under the pack-size settings
+
+The restored bytes are a function of the snapshot's files (blob lists, blob contents) and of the existing destination —
+`Props.C13.restore_writes_independent_of_pack_layout`; no pack-size setting enters.  The model line: number and byte size of
+the source files, and how many destination files are trusted unread with OTHER content (`add_file`: no `verify_existing`, a
+regular file of the node's size whose mtime equals the node's). -/
+
+def safeName (n : List UInt8) : Bool :=
+  !n.isEmpty && n.all (fun b => (48 ≤ b && b ≤ 57) || (65 ≤ b && b ≤ 90) || (97 ≤ b && b ≤ 122))
+
+/-- path below the source root -/
+def relPath (e : Rustic.Tree.Entry (List Nat)) : List (List UInt8) :=
+  (if e.node.kind = .dir then e.path else e.path ++ [e.node.name]).drop 1
+
+/-- what a `rest` case accepts as source / destination: files and directories, alphanumeric components, whole-second mtimes,
+    no path twice (as the harness) -/
+def restValid (es : List (Rustic.Tree.Entry (List Nat))) : Bool :=
+  es.all (fun e =>
+    (e.node.kind = .file || e.node.kind = .dir) && (relPath e).all safeName &&
+    (match e.node.md.mtime with | some m => 0 ≤ m && m < 4000000000 | none => false)) &&
+  (es.map relPath).eraseDups.length = es.length
+
+/-- run tokens of a `rest` case: `seed.dpack.tpack[.pool]`, pool `0` or an installed pool of 2..64 workers -/
+def restRun (t : String) : Bool :=
+  match t.splitOn "." with
+  | [a, b, c] => (num? a).isSome && (num? b).isSome && (num? c).isSome
+  | [a, b, c, p] =>
+    (num? a).isSome && (num? b).isSome && (num? c).isSome &&
+      (match num? p with | some n => n ≤ 64 && n ≠ 1 | none => false)
+  | _ => false
+
+def restLine (src dst : List (Rustic.Tree.Entry (List Nat))) (verify : Bool) (nruns : Nat) : String :=
+  let files := src.filter (fun e => e.node.kind = .file)
+  let dfiles := dst.filter (fun e => e.node.kind = .file)
+  let kept := files.filter fun f =>
+    !verify && dfiles.any fun d =>
+      relPath d = relPath f && d.node.md.size = f.node.md.size && d.node.md.mtime = f.node.md.mtime && d.x ≠ f.x
+  s!"ok runs={nruns} files={files.length} bytes={(files.map (·.node.md.size)).sum} kept={kept.length}"
+
 def handle : List String → String
   | ["stream", seed, forest, roots] =>
     match validSeed seed, parseForest forest, parseRoots roots with
@@ -112,6 +151,14 @@ def handle : List String → String
     | some n, some _ => refCounts b n
     | _, _ => "bad-op"
   | ["chk", ms] => if ms.toNat?.isSome then "ok errors>0" else "bad-op"
+  | ["rest", src, dst, verify, runs] =>
+    match Driver.C11.parseSrc src, Driver.C11.parseSrc dst with
+    | some s, some d =>
+      let rs := runs.splitOn ","
+      if (verify = "0" || verify = "1") && restValid s && restValid d && rs.all restRun then
+        restLine s d (verify = "1") rs.length
+      else "bad-op"
+    | _, _ => "bad-op"
   | ["snaps", seed, n] =>
     -- n snapshots with pairwise different, complete root trees: `check` finds nothing, whatever the schedule
     match validSeed seed, num? n with
